@@ -177,3 +177,38 @@ def run(ck):
                   'installing a rotated key into the live session is paired with a notification to the peer or a teardown/re-handshake of '
                   'that session', wit)
     ck.floor('C39.coord', 'installations of a rotated key', sites, 2)
+
+    # ---- a rotation restarts the schedule at the tick that performed it: last_rotation = now ------------------------------------------
+    # (advancing it by the interval instead makes an end that ticked late rotate again on its next ticks, ahead of its peer)
+    lr2 = []
+    for i in rn.walk():
+        nd = rn.nodes[i]
+        if nd['k'] in ('BinaryOperator', 'CXXOperatorCallExpr', 'CompoundAssignOperator') and (nd.get('op') or '').endswith('=') and nd['op'] not in ('==', '!=', '<=', '>='):
+            ks = rn.kids(i) if nd['k'] != 'CXXOperatorCallExpr' else rn.kids(i)[1:]
+            l = rn.nodes[rn.strip(ks[0], casts=False)]
+            if l['k'] == 'MemberExpr' and l.get('n') == 'last_rotation':
+                lr2.append((i, nd['op'], canon(rn, ks[1])))
+    ok2 = len(lr2) == 1 and lr2[0][1] == '=' and lr2[0][2] == ('v', rn.params[1]['n'])
+    ck.ob('C39.sched', 'C39.sched/rotation-restarts-from-now', ok2, rn.loc(lr2[0][0]) if lr2 else rn.loc(),
+          'rotate_if_needed sets last_rotation exactly once, to the tick time `now` it was given (found %s)' % [(o, c) for _i, o, c in lr2])
+
+    # ---- every known session is offered the due test on every tick: the rotation pass skips no peer ----------------------------------
+    from sa.paths import loops as _loops39, must_pass_before_next_iteration as _mpb, Cfg as _Cfg39
+    rsk = PN.fn(N + 'rotate_session_keys')
+    ck.touch(rsk)
+    lp39 = [l for l in _loops39(rsk) if any((rsk.nodes[j].get('callee') or '') == KM + 'rotate_if_needed' for j in rsk.walk(l))]
+    rot_calls = [j for j in rsk.walk() if (rsk.nodes[j].get('callee') or '') == KM + 'rotate_if_needed']
+    if len(lp39) != 1 or not rot_calls:
+        raise AnalysisBroken('rotate_session_keys lost its loop over the known sessions / its rotate_if_needed call')
+    cfg39 = _Cfg39.of(rsk)
+    body39 = rsk.nodes[lp39[0]]['body']
+    first = None
+    for bid, b in cfg39.blocks.items():
+        if any(isinstance(e, int) and (e == body39 or rsk.is_in(e, body39)) for e in b['e']):
+            if first is None or min(e for e in b['e'] if isinstance(e, int) and (e == body39 or rsk.is_in(e, body39))) < first[1]:
+                first = (bid, min(e for e in b['e'] if isinstance(e, int) and (e == body39 or rsk.is_in(e, body39))))
+    wit39 = None
+    for bid in [s_ for hb in cfg39.blocks.values() if hb.get('term') == lp39[0] for s_ in hb['s'][:1] if s_ is not None and s_ >= 0]:
+        wit39 = wit39 or _mpb(rsk, bid, lambda e, s_=set(rot_calls): e in s_ or any(rsk.is_in(x, e) for x in s_), lp39[0])
+    ck.ob('C39.sched', 'C39.sched/every-session-offered', wit39 is None, rsk.loc(lp39[0]),
+          'rotate_session_keys calls rotate_if_needed for every known peer on every pass (no peer is skipped, e.g. for having no live connection)', wit39)
